@@ -402,6 +402,22 @@ impl Sweep {
                 if let Some(Ok(bb)) = self.call("BlockBuilder::code", || b::BlockBuilder::new().code(s)) {
                     self.reached.push("datalog");
                     self.call("BlockBuilder::to_string", || bb.to_string());
+                    // the accepted block goes into a token, as a first-party and as a third-party block
+                    let base = self.call("base token", || {
+                        b::BiscuitBuilder::new()
+                            .code("user(1)")
+                            .unwrap()
+                            .build_with_key_pair(&root_kp, biscuit_auth::datalog::SymbolTable::default(), &k(91, Alg::Ed).keypair())
+                            .unwrap()
+                    });
+                    if let Some(base) = base {
+                        if let Some(Ok(t)) = self.call("Biscuit::append(parsed block)", || base.append_with_keypair(&k(92, Alg::Ed).keypair(), bb.clone())) {
+                            self.call("Biscuit::print(parsed block)", || t.print());
+                        }
+                        self.call("ThirdPartyRequest::create_block(parsed block)", || {
+                            base.third_party_request().and_then(|r| r.create_block(&k(93, Alg::P256).keypair().private(), bb.clone())).is_ok()
+                        });
+                    }
                 }
                 if let Some(Ok(bb)) = self.call("BiscuitBuilder::code", || b::BiscuitBuilder::new().code(s)) {
                     self.call("BiscuitBuilder::dump_code", || (bb.dump_code(), bb.to_string()));
@@ -559,6 +575,23 @@ fn mutate_bytes(t: &mut Tape, mut b: Vec<u8>) -> Vec<u8> {
     b
 }
 
+/// whole items with parameters that nothing binds: text entry points must refuse them or carry
+/// them without panicking at print / build time
+const UNBOUND_ITEMS: &[&str] = &[
+    "check if true trusting {pk}",
+    "check if resource($r) trusting {pk}, authority",
+    "r($x) <- f($x) trusting {pk}",
+    "r({p}) <- f($x), $x == {q} trusting {pk}",
+    "allow if true trusting {pk}",
+    "deny if f({p}) trusting previous, {pk}",
+    "f({p})",
+    "f([{p}, 1], {\"k\": {q}}, {{k}: 1})",
+    "check if [1].any($x -> $x == {p})",
+    "check if true || {p}",
+    "check all f($x), $x.contains({p}) trusting {pk}",
+    "reject if f({p}) or g({q}) trusting {pk}",
+];
+
 const DATALOG_FRAGMENTS: &[&str] = &[
     "right(\"file1\", \"read\")", "check if ", "check all ", "reject if ", "allow if ", "deny if ", "true", "false", "$x", "$0", "resource($x)", " <- ", ", ", ";", "\n", " or ",
     " trusting ", "authority", "previous", "ed25519/", "secp256r1/", "ed25519/00", "ed25519/zz", "hex:", "hex:0", "hex:00ff", "{", "}", "{,}", "{}", "[", "]", "[1, 2]", "{\"a\": 1}", "{p}", "{1}: 2",
@@ -584,6 +617,15 @@ fn gen_datalog(t: &mut Tape) -> String {
         }
         let b = mutate_bytes(t, s.into_bytes());
         return String::from_utf8_lossy(&b).to_string();
+    }
+    if t.chance(1, 5) {
+        // well-formed items with unbound parameters, alone or among other items
+        let n = t.range(1, 3);
+        let mut items: Vec<String> = (0..n).map(|_| t.choose(UNBOUND_ITEMS).to_string()).collect();
+        if t.chance(1, 2) {
+            items.push("user(1)".into());
+        }
+        return if n == 1 && t.chance(1, 2) { items[0].clone() } else { items.join(";\n") + ";" };
     }
     let n = t.range(0, 12);
     let mut s = String::new();
@@ -1006,16 +1048,19 @@ enum Ack {
     Timeout,
 }
 
+/// first attempt, among the other inputs of the worker
 const WATCHDOG: Duration = Duration::from_secs(30);
+/// second attempt, alone in a fresh worker: only an input that stays unanswered this long is a hang
+const LONG_WATCHDOG: Duration = Duration::from_secs(600);
 
-fn submit(c: &mut Child, id: u64, input: &Input) -> Ack {
+fn submit(c: &mut Child, id: u64, input: &Input, watchdog: Duration) -> Ack {
     let line = json!({"id": id, "input": input}).to_string();
     if writeln!(c.stdin, "{}", line).is_err() || c.stdin.flush().is_err() {
         let st = c.child.wait().map(|s| format!("{s}")).unwrap_or_default();
         return Ack::Died(st);
     }
     loop {
-        match c.rx.recv_timeout(WATCHDOG) {
+        match c.rx.recv_timeout(watchdog) {
             Ok(l) => {
                 if let Ok(v) = serde_json::from_str::<serde_json::Value>(&l) {
                     if v["id"].as_u64() == Some(id) {
@@ -1052,7 +1097,17 @@ pub fn run_inputs(ctx: &Ctx, inputs: Vec<(Input, &'static str)>) {
                     let id = (w * chunk + i) as u64;
                     let mut rep = vcore::runner::Report::default();
                     rep.class(format!("gen:{class}"));
-                    let ack = submit(&mut child, id, input);
+                    let mut ack = submit(&mut child, id, input, WATCHDOG);
+                    if matches!(ack, Ack::Timeout) {
+                        // a loaded machine is not a hang: the input is given a second, long
+                        // attempt alone in a fresh worker, and its answer is treated like any other
+                        rep.class("slow_input_second_attempt");
+                        child = spawn_child();
+                        let mut c2 = spawn_child();
+                        ack = submit(&mut c2, id, input, LONG_WATCHDOG);
+                        let _ = c2.child.kill();
+                        let _ = c2.child.wait();
+                    }
                     let mut violations: Vec<Violation> = vec![];
                     match ack {
                         Ack::Ok(v) => {
@@ -1087,25 +1142,10 @@ pub fn run_inputs(ctx: &Ctx, inputs: Vec<(Input, &'static str)>) {
                             child = spawn_child();
                         }
                         Ack::Timeout => {
-                            // re-run alone twice: a hang only if it reproduces
-                            let mut again = 0;
-                            for _ in 0..2 {
-                                let mut c2 = spawn_child();
-                                if matches!(submit(&mut c2, id, input), Ack::Timeout) {
-                                    again += 1;
-                                }
-                                let _ = c2.child.kill();
-                                let _ = c2.child.wait();
-                            }
-                            if again == 2 {
-                                violations.push(Violation::new(
-                                    format!("hang:{}", kind_of(input)),
-                                    format!("no answer within {:?}, reproduced twice (class {class})", WATCHDOG),
-                                ));
-                            } else {
-                                inconclusive.store(true, std::sync::atomic::Ordering::Relaxed);
-                            }
-                            child = spawn_child();
+                            violations.push(Violation::new(
+                                format!("hang:{}", kind_of(input)),
+                                format!("no answer within {:?} and, alone in a fresh worker, within {:?} (class {class})", WATCHDOG, LONG_WATCHDOG),
+                            ));
                         }
                     }
                     ctx.merge(rep);
@@ -1120,10 +1160,7 @@ pub fn run_inputs(ctx: &Ctx, inputs: Vec<(Input, &'static str)>) {
             });
         }
     });
-    if inconclusive.load(std::sync::atomic::Ordering::Relaxed) {
-        ctx.extra("aborted", json!(true));
-        ctx.note("a watchdog expiry did not reproduce: inconclusive");
-    }
+    let _ = inconclusive;
 }
 
 pub fn run(ctx: &Ctx, replay: Option<&serde_json::Value>) {
@@ -1133,7 +1170,7 @@ pub fn run(ctx: &Ctx, replay: Option<&serde_json::Value>) {
         return;
     }
     ctx.set_rule("13 generators: adversarial schema::Block (out-of-range symbol / variable / key ids, malformed op sequences, empty oneofs, unknown enum numbers, versions 0..8, duplicate and default symbols, invalid keys, huge dates, deep nesting) and edited valid blocks, both PROPERLY SIGNED by RefSigner as authority / first-party / third-party block; valid, mutated and random token bytes and base64; adversarial and edited real authorizer snapshots (counters beyond limits, bogus origins); policies; third-party requests and blocks; key strings, bytes, PEM, DER; Datalog text from fragments and mutated printed programs; an operand grid of well-formed expressions in signed version-6 blocks (every binary operator over every pair of 12 extreme integers, every unary operator over a 35-term pool of extreme values of every type, sampled mixed-type and two-operator expressions), each evaluated both on constants and through variables bound by a fact. Every input goes to every applicable entry point in a child process, followed by the accessor sweep (all indices incl. count..count+2 and usize::MAX, print, seal, append, third-party, authorizer build / run / authorize / query / dump / snapshot / restore). oracle: no panic (caught, attributed to entry point and file), no abort, no watchdog expiry; non-trivial = the input passed the gate and produced an object (token, authorizer, key, parsed item); distinct = hash(input)");
-    ctx.assume("a watchdog expiry that does not reproduce twice is reported as inconclusive (exit 2), never as a violation");
+    ctx.assume("an input unanswered after 30 s gets a second attempt alone in a fresh worker with a 600 s watchdog; only a second expiry is a hang");
     let total = match ctx.tier {
         Tier::Quick => 24_000usize,
         Tier::Thorough => 400_000,
